@@ -8,9 +8,15 @@ tmp = tempfile.mkdtemp(prefix="refshape_")
 try:
     subprocess.check_call("git -C %s archive HEAD sasmodels | tar -x -C %s" % (repo, tmp), shell=True)
     ref = alpha.build_reference(tmp)
+    from sa import refs
+    bodies = refs.build_bodies(tmp)
 finally:
     shutil.rmtree(tmp)
 out = os.path.join(os.path.dirname(os.path.abspath(__file__)), "..", "sa", "refshape.json")
 with open(out, "w") as fd:
     json.dump(ref, fd, sort_keys=True, separators=(",", ":"))
+out2 = os.path.join(os.path.dirname(os.path.abspath(__file__)), "..", "sa", "refbodies.json")
+with open(out2, "w") as fd:
+    json.dump(bodies, fd, sort_keys=True, indent=0)
+print("reference bodies:", sum(len(v["bodies"]) for v in bodies.values()), "bytes:", os.path.getsize(out2))
 print("functions:", sum(len(v) for v in ref.values()), "files:", len(ref), "bytes:", os.path.getsize(out))
